@@ -595,7 +595,7 @@ impl Property for C08 {
     }
 
     fn rule() -> &'static str {
-        "one evaluation = one seeded scenario: a real tree (up to 60 entries; in 40% of the runs names of 50-240 bytes so that paths reach kilobytes) under 1-3 starting points, `TESTS -print0 -exec|-execdir CMD FIXED {} + MARK` with the action placed plainly, in parentheses, under `!`, on either side of `-o`, inside a `,` list, optionally followed by `-name X -quit`, -depth on/off; faults: any subset of invocations failing (exit != 0, signal, spawn error), and knobs that shrink the argument budget for real (RLIMIT_STACK 512 KiB plus 95-120 KB of environment leave argmax 6-30 KB, so small trees need 2-8 batches); oracle over the interleaved history of output records and spawns: the paths passed, concatenated over all invocations, equal the sequence that reached the action (per directory and as ./basename with the right cwd for -execdir), each passed after it was reached, none pending at exit, fixed arguments intact, at least one path per invocation, every invocation within the kernel's budget (formula, confirmed by a real execve before reporting), truth marker after every reached entry, exit status non-zero iff some invocation failed; distinct = distinct abstract trace; non-trivial = a failing invocation fired or a probe hit (several invocations, tight budget, action under !/-o/,, -quit, -execdir)"
+        "one evaluation = one seeded scenario: a real tree (up to 60 entries; in 40% of the runs names of 50-240 bytes so that paths reach kilobytes) under 1-3 starting points, `TESTS -print0 -exec|-execdir CMD FIXED {} + MARK` with the action placed plainly, in parentheses, under `!`, on either side of `-o`, inside a `,` list, optionally followed by `-name X -quit`, -depth on/off; faults: any subset of invocations failing (exit != 0, signal, spawn error), and knobs that shrink the argument budget for real (RLIMIT_STACK 512 KiB plus 95-120 KB of environment leave argmax 6-30 KB, so small trees need 2-8 batches); oracle over the interleaved history of output records and spawns: the paths passed, concatenated over all invocations, equal the sequence that reached the action (per directory and as ./basename with the right cwd for -execdir), each passed after it was reached, none pending at exit, fixed arguments intact, at least one path per invocation, every invocation within the kernel's budget (formula, confirmed by a real execve before reporting), truth marker after every reached entry, exit status non-zero iff some invocation failed; also -mindepth/-maxdepth, starting points with directory components, a crowded directory below the top, names that are not valid UTF-8; distinct = distinct abstract trace; non-trivial = a failing invocation fired or a probe hit (several invocations, tight budget, action under !/-o/,, -quit, -execdir)"
     }
 
     fn components() -> Value {
